@@ -182,17 +182,21 @@ func runC04(t *testing.T, seed int64, n int, out *Out) {
 						quote = q
 					}
 				}()
-				switch r.Intn(4) {
+				boundaryMax := false
+				switch r.Intn(6) {
 				case 0:
 					rq.amtIn = math.NewInt(1_000_000_000_000)
 				case 1:
 					rq.amtIn = quote
 				case 2:
 					rq.amtIn = quote.MulRaw(1001).QuoRaw(1000).AddRaw(1)
+				case 3:
+					// the boundary values of the limit itself: a stated maximum of zero (or below) is a limit no swap can meet
+					rq.amtIn, boundaryMax = []math.Int{math.ZeroInt(), math.NewInt(-1), math.OneInt()}[r.Intn(3)], true
 				default:
 					rq.amtIn = quote.SubRaw(1)
 				}
-				if !rq.amtIn.IsPositive() {
+				if !rq.amtIn.IsPositive() && !boundaryMax {
 					rq.amtIn = math.OneInt()
 				}
 				rq.amtOut = amt
